@@ -41,21 +41,29 @@ mpd_protocol and/or mpd_client (src/ files only, never the existing tests) such 
 1. the workspace still compiles and the ENTIRE existing test suite still passes
    (`cargo test --workspace --offline`, 101 unit tests + doctests, none edited);
 2. the property above is violated for some input / schedule / history / fault;
-3. the violation is VERY HARD to find. Assume the adversary is a strong randomized tester: it
-   generates inputs from the full grammar with boundary values (buffer sizes 4096/8192/65536 +-1,
-   2^64, empty strings, every special character class, keyword look-alikes, multi-byte characters,
-   case-mapping oddities), all argument positions and counts up to the documented limits, both
-   connection flavours with short writes, every construction path of a command or list (new, builder
-   methods, extend, add, From impls, clones), operation sequences of a few dozen steps compared with
-   a model after every step, and it runs with and without a tracing subscriber and with and without
-   the optional cargo features. Your change must still slip through: make it depend on a CONJUNCTION
-   of two or three individually unremarkable conditions (a particular state reached by an earlier
-   operation AND a particular shape of the next input; a value that is only wrong for one combination
-   of two parameters; behaviour that differs only on the second use of an object; a threshold nobody
-   would pick as a boundary; an interaction between two features that are rarely used together), or on
-   two cooperating code sites that each look fine alone. It must NOT be something ordinary use
-   would expose at once, and it must be a genuine violation of the statement above (not of some
-   stronger property).
+3. the violation is VERY HARD to find. Assume the adversary is a very strong randomized tester that
+   already varies ALL of the following, so a change that hides behind any one of them WILL be found:
+   inputs from the full grammar with boundary values; sizes on a logarithmic scale (lines and
+   arguments up to 4 MiB, replies up to 80 MiB, responses of a million lines, 2000 pending events,
+   900 requests per connection); every read segmentation incl. network read sizes (536..1500..65535)
+   and reads aligned with line ends; receives interrupted by transient errors or dropped futures and
+   retried; short, vectored, stalled and transiently failing writes; fault injection at every byte;
+   thousands of deterministic interleavings of callers / notifications / timers; long-lived
+   connections (key caches filled with hundreds of names, buffers grown to MiBs, counters in the
+   hundreds); command objects built through every constructor/builder path, cloned and clone_from'd,
+   sent twice and after other commands; iterators driven through next/next_back/nth/skip/step_by/
+   last/count/fold; hash laws under several hashers; with and without a tracing subscriber; all cargo
+   features; greeting versions old and new; application handles dropped or held without polling;
+   alphabets with every ASCII control incl. DEL, quotes, backslashes, multi-byte and case-mapping
+   oddities, strings dense in escapable characters, odd strings like "/" "." "+0" "null";
+   10^8..10^9 random names against table lookups.
+   Your change must still slip through: think about what is NOT in that list. Make it depend on a
+   conjunction of individually unremarkable conditions that the list does not cross with each other,
+   on state that only an unusual but legitimate sequence of public-API calls reaches, on an
+   environment aspect the list does not mention, or on two cooperating code sites. Do NOT hide it
+   behind a cryptographic-strength coincidence (64-bit hash collisions and the like): it must be
+   something a thoughtful human reviewer could trigger on purpose with a short test. It must be a
+   genuine violation of the statement above (not of some stronger property).
 4. you provide a demonstration: a new integration test file (e.g. `mpd_client/tests/seed_demo_1.rs`
    or `mpd_protocol/tests/seed_demo_1.rs`, using only the public API and dev-dependencies already
    in Cargo.toml such as tokio, tokio-test, assert_matches) which FAILS with the change applied and
